@@ -64,9 +64,16 @@ theorem Kid.mem_all (k : Kid) : k ∈ Kid.all := by
   | bool o => cases o <;> decide
 
 /-- the parent precedence `compile` hands to the operand in this slot (`_OperatorDelimiter`:
-`get_op_precedence(parent.op)`, `+1` under `**` and under `and`/`or`; no distinction between the
-left and the right operand) -/
+`get_op_precedence(parent.op)`, `+1` under `**` and under `and`/`or`, and — since b6b97a7 — `+1`
+for the right operand of every other binary operator) -/
 def Slot.pp (T : PrecTable) : Slot → Nat
+  | .unary op => T.unary op
+  | .binL op => T.bin op + (if op = .pow then 1 else 0)
+  | .binR op => T.bin op + 1
+  | .boolArg op => T.bool op + 1
+
+/-- HISTORICAL (before b6b97a7): no distinction between the left and the right operand -/
+def Slot.ppOld (T : PrecTable) : Slot → Nat
   | .unary op => T.unary op
   | .binL op => T.bin op + (if op = .pow then 1 else 0)
   | .binR op => T.bin op + (if op = .pow then 1 else 0)
@@ -79,6 +86,9 @@ def Kid.prec (T : PrecTable) : Kid → Nat
 
 /-- does the colourizer put the kid in parentheses? -/
 def decision (T : PrecTable) (s : Slot) (k : Kid) : Bool := needParen (some (s.pp T)) (k.prec T)
+
+/-- HISTORICAL: the decision before b6b97a7 -/
+def decisionOld (T : PrecTable) (s : Slot) (k : Kid) : Bool := needParen (some (s.ppOld T)) (k.prec T)
 
 namespace Grammar
 /-- the non-terminal the operand of this slot must be derivable from -/
@@ -97,42 +107,58 @@ def needsParens (s : Slot) (k : Kid) : Bool := kidLevel k < slotMin s
 end Grammar
 
 /-- right operand of a left-associative binary operator, kid a binary operator of the same
-precedence: the one family of table entries where parentheses are needed and not written -/
+precedence (`a-(b-c)`, `a/(b*c)`, `a-(b+c)`) -/
 def rightEqual (T : PrecTable) (s : Slot) (k : Kid) : Bool :=
   match s, k with
   | .binR p, .bin c => p ≠ .pow && T.bin p == T.bin c
   | _, _ => false
 
-/- Full statement (FALSE for the current code, see `paren_table_counterexample`):
+/-- the right operand of `**` being a unary `+ - ~` or another `**`: parentheses are written although
+`a**-b` and `a**b**c` would read the same -/
+def powRightTight (s : Slot) (k : Kid) : Bool :=
+  match s, k with
+  | .binR .pow, .unary op => op ≠ .not
+  | .binR .pow, .bin .pow => true
+  | _, _ => false
+
+/-- **Pyval.paren_table** — over the WHOLE generated table (32 operand slots × 19 operator kids):
+wherever Python's grammar needs parentheses to keep the grouping, the colourizer writes them. -/
 theorem paren_table (s : Slot) (k : Kid) :
-    Grammar.needsParens s k = true → decision LT s k = true -/
-
-/-- over the WHOLE table: the entries where the grammar needs parentheses and the colourizer writes
-none are exactly the `rightEqual` ones -/
-theorem paren_table_exact :
-    ∀ s ∈ Slot.all, ∀ k ∈ Kid.all,
-      (Grammar.needsParens s k && !decision LT s k) = rightEqual LT s k := by
-  decide +kernel
-
-theorem paren_table_partial (s : Slot) (k : Kid) (h : rightEqual LT s k = false) :
     Grammar.needsParens s k = true → decision LT s k = true := by
-  have := paren_table_exact s (Slot.mem_all s) k (Kid.mem_all k)
-  rw [h] at this
+  have h : ∀ s ∈ Slot.all, ∀ k ∈ Kid.all, (Grammar.needsParens s k && !decision LT s k) = false := by
+    decide +kernel
+  have := h s (Slot.mem_all s) k (Kid.mem_all k)
   intro hn
   rw [hn] at this
   simpa using this
 
-/-- non-vacuity: the hypothesis holds for 572 of the 608 entries; parentheses are needed in 264 of those -/
+/-- non-vacuity: parentheses are needed in 300 of the 608 entries -/
 example : ((Slot.all.flatMap fun s => Kid.all.map fun k => (s, k)).filter
-    fun p => !rightEqual LT p.1 p.2 && Grammar.needsParens p.1 p.2).length = 264 := by decide +kernel
+    fun p => Grammar.needsParens p.1 p.2).length = 300 := by decide +kernel
 
+/-- the converse, exactly: the only parentheses the grammar does not need are around the right
+operand of `**` (4 entries: `a**(-b)`, `a**(+b)`, `a**(~b)`, `a**(b**c)`) — harmless for the property -/
+theorem paren_table_extra :
+    ∀ s ∈ Slot.all, ∀ k ∈ Kid.all,
+      (decision LT s k && !Grammar.needsParens s k) = powRightTight s k := by
+  decide +kernel
 
+/-- HISTORICAL (the code before b6b97a7): the entries where parentheses were needed and not written
+were exactly the `rightEqual` ones … -/
+theorem paren_table_old_exact :
+    ∀ s ∈ Slot.all, ∀ k ∈ Kid.all,
+      (Grammar.needsParens s k && !decisionOld LT s k) = rightEqual LT s k := by
+  decide +kernel
 
-/-- `a-(b-c)`, `a/(b*c)`, `a-(b+c)`: needed, not written -/
-theorem paren_table_counterexample :
-    (Grammar.needsParens (.binR .sub) (.bin .sub) = true ∧ decision LT (.binR .sub) (.bin .sub) = false) ∧
-    (Grammar.needsParens (.binR .div) (.bin .mult) = true ∧ decision LT (.binR .div) (.bin .mult) = false) ∧
-    (Grammar.needsParens (.binR .sub) (.bin .add) = true ∧ decision LT (.binR .sub) (.bin .add) = false) := by
+/-- … e.g. `a-(b-c)`, `a/(b*c)`, `a-(b+c)` (HISTORICAL counterexample; with the fix all three are
+parenthesised) -/
+theorem paren_table_old_counterexample :
+    (Grammar.needsParens (.binR .sub) (.bin .sub) = true ∧ decisionOld LT (.binR .sub) (.bin .sub) = false ∧
+      decision LT (.binR .sub) (.bin .sub) = true) ∧
+    (Grammar.needsParens (.binR .div) (.bin .mult) = true ∧ decisionOld LT (.binR .div) (.bin .mult) = false ∧
+      decision LT (.binR .div) (.bin .mult) = true) ∧
+    (Grammar.needsParens (.binR .sub) (.bin .add) = true ∧ decisionOld LT (.binR .sub) (.bin .add) = false ∧
+      decision LT (.binR .sub) (.bin .add) = true) := by
   decide
 
 /-- every other expression parent (tuple/list/set element, call argument, keyword value, starred
@@ -149,6 +175,11 @@ theorem paren_table_oversound :
 `unescapeStr` is Python's lexing of the body of a single-quoted `str` literal restricted to the
 escape sequences `_str_escape` can emit; a raw quote, a raw line end, or any other backslash
 sequence is `none`. -/
+
+def unhex (c : Char) : Option Nat :=
+  if '0' ≤ c ∧ c ≤ '9' then some (c.toNat - 48)
+  else if 'a' ≤ c ∧ c ≤ 'f' then some (c.toNat - 87)
+  else none
 
 def unescChar (d : Char) : Option Char :=
   if d = '\'' then some '\''
@@ -168,33 +199,46 @@ def unescapeStr (tri : Bool) : List Char → Option (List Char)
       match rest with
       | [] => none
       | d :: rest' =>
-        match unescChar d, unescapeStr tri rest' with
-        | some x, some xs => some (x :: xs)
-        | _, _ => none
-    else if c = '\'' ∨ (c = '\n' ∧ tri = false) ∨ c = '\r' then none
+        if d = 'x' then
+          match rest' with
+          | h1 :: h2 :: rest'' =>
+            match unhex h1, unhex h2, unescapeStr tri rest'' with
+            | some a, some b, some xs => some (Char.ofNat (a * 16 + b) :: xs)
+            | _, _, _ => none
+          | _ => none
+        else
+          match unescChar d, unescapeStr tri rest' with
+          | some x, some xs => some (x :: xs)
+          | _, _ => none
+    else if c = '\'' ∨ (c = '\n' ∧ tri = false) ∨ c = '\r' ∨ c = Char.ofNat 0 then none
     else (unescapeStr tri rest).map (c :: ·)
 
 theorem unescape_escapeChar (tri : Bool) (c : Char) (rest : List Char) :
     unescapeStr tri (strEscapeChar c ++ rest) = (unescapeStr tri rest).map (c :: ·) := by
   unfold strEscapeChar
   split
-  · next h => subst h; simp [unescapeStr, unescChar]; cases unescapeStr tri rest <;> rfl
+  · next h => subst h; rw [unescapeStr.eq_def]; simp [unescChar]; cases unescapeStr tri rest <;> rfl
   split
-  · next h => subst h; simp [unescapeStr, unescChar]; cases unescapeStr tri rest <;> rfl
+  · next h => subst h; rw [unescapeStr.eq_def]; simp [unescChar]; cases unescapeStr tri rest <;> rfl
   split
-  · next h => subst h; simp [unescapeStr, unescChar]; cases unescapeStr tri rest <;> rfl
+  · next h => subst h; rw [unescapeStr.eq_def]; simp [unescChar]; cases unescapeStr tri rest <;> rfl
   split
-  · next h => subst h; simp [unescapeStr, unescChar]; cases unescapeStr tri rest <;> rfl
+  · next h => subst h; rw [unescapeStr.eq_def]; simp [unescChar]; cases unescapeStr tri rest <;> rfl
   split
-  · next h => subst h; simp [unescapeStr, unescChar]; cases unescapeStr tri rest <;> rfl
+  · next h => subst h; rw [unescapeStr.eq_def]; simp [unescChar]; cases unescapeStr tri rest <;> rfl
   split
-  · next h => subst h; simp [unescapeStr, unescChar]; cases unescapeStr tri rest <;> rfl
+  · next h => subst h; rw [unescapeStr.eq_def]; simp [unescChar]; cases unescapeStr tri rest <;> rfl
   split
-  · next h => subst h; simp [unescapeStr, unescChar]; cases unescapeStr tri rest <;> rfl
-  · next h1 h2 h3 h4 h5 h6 h7 =>
-    cases rest with
-    | nil => simp [unescapeStr, h1, h3, h4, h7]
-    | cons d r => simp [unescapeStr, h1, h3, h4, h7]
+  · next h => subst h; rw [unescapeStr.eq_def]; simp [unescChar]; cases unescapeStr tri rest <;> rfl
+  split
+  · next h =>
+    subst h
+    rw [unescapeStr.eq_def]
+    have h0 : unhex '0' = some 0 := by decide
+    simp [h0]
+    cases unescapeStr tri rest <;> rfl
+  · next h1 h2 h3 h4 h5 h6 h7 h8 =>
+    rw [unescapeStr.eq_def]; simp [h1, h3, h4, h7, h8]
 
 /-- **Pyval.str_roundtrip**: for every string, Python's lexing of `'` + `_str_escape(s)` + `'`
 gives back `s` (value preserved; only the quote style may differ from the source). -/
@@ -255,7 +299,7 @@ theorem triBody_eq (s : List Char) :
 
 theorem unescape_rawNl (rest : List Char) :
     unescapeStr true ('\n' :: rest) = (unescapeStr true rest).map ('\n' :: ·) := by
-  cases rest <;> simp [unescapeStr]
+  rw [unescapeStr.eq_def]; simp; decide
 
 /-- the triple-quoted multi-line form lexes back to the same string -/
 theorem str_roundtrip_lines (s : List Char) : unescapeStr true (triBody s) = some s := by
@@ -273,11 +317,6 @@ theorem str_roundtrip_lines (s : List Char) : unescapeStr true (triBody s) = som
 example : triBody "a'\nb".toList = "a\\'\nb".toList := by decide
 
 /-! ### bytes -/
-
-def unhex (c : Char) : Option Nat :=
-  if '0' ≤ c ∧ c ≤ '9' then some (c.toNat - 48)
-  else if 'a' ≤ c ∧ c ≤ 'f' then some (c.toNat - 87)
-  else none
 
 def unescByteChar (d : Char) : Option Nat :=
   if d = '\'' then some 39 else if d = '\\' then some 92 else if d = 't' then some 9
